@@ -249,6 +249,7 @@ int main(int argc, char **argv) {
         unsigned max_report = (unsigned)std::atoi(arg(argc, argv, "--max-report", "20"));
         Stats st; std::set<uint64_t> distinct; uint64_t viols = 0, runs = 0, nt = 0;
         bool stop_after_violation = false;
+        std::set<uint64_t> sites; const char *sitefile = arg(argc, argv, "--sites", nullptr); if (sitefile) g_sites = &sites;
         struct timespec t0; clock_gettime(CLOCK_MONOTONIC, &t0);
         for (uint64_t n = 0; n < count; n++) {
             uint64_t i = start + n * stride;
@@ -272,6 +273,7 @@ int main(int argc, char **argv) {
         print_summary(st, runs, viols, distinct, nt);
         const char *sigfile = arg(argc, argv, "--sigs", nullptr);
         if (sigfile) { std::ofstream f(sigfile, std::ios::binary); for (uint64_t h : distinct) f.write((const char *)&h, 8); }
+        if (sitefile) { std::ofstream f(sitefile, std::ios::binary); for (uint64_t h : sites) f.write((const char *)&h, 8); }
         if (stop_after_violation) { std::fflush(stdout); _exit(3); }
         return 0;
     }
